@@ -36,7 +36,7 @@ From Coq Require Import ZArith List Bool.
 From CanVerif Require Import Socketcan.Wire Socketcan.WireSpec Socketcan.Receiver Socketcan.ReceiverSpec
   Socketcan.ReceiverProofs Socketcan.Transmitter Socketcan.TransmitterProofs
   Socketcan.Process Socketcan.ProcessProofs Socketcan.ScanBuffer Socketcan.ScanBufferProofs
-  Socketcan.Glue Socketcan.GlueProofs.
+  Socketcan.Glue Socketcan.GlueProofs Socketcan.Emulator Socketcan.EmulatorProofs.
 Import ListNotations.
 Open Scope Z_scope.
 
@@ -481,3 +481,66 @@ Example C07_glue_nonvacuous :
   (let s := dial_run (mkPres true GNil) dial0 [EProvider; ECtxDone; ESelect false; ECleanup] in
    d_ret s = DResult true GNil /\ d_closes s = 0 /\ dial_finished s = true).
 Proof. vm_compute. repeat split. Qed.
+
+(** THE EMULATED BUS (Socketcan/Emulator.v; emulator.go has no fan-out code: every endpoint is a udpTxRx on
+    one multicast group with loopback on, the kernel queues a datagram at every member socket - ASSUMED,
+    observed by the E lines). History operations: [EConnect i] (Emulator.Receiver() or Dial("udp", Addr())
+    creates endpoint i), [EDisconnect i], [ETransmit None f] (Emulator.TransmitFrame: own short-lived
+    connection), [ETransmit (Some j) f] (a Transmitter on endpoint j's connection: writes only while j is
+    open). [emu_run [] ops] = the bus after the history, [inbox_of i bus] = the datagrams endpoint i was
+    handed, tagged with their sender. Specification without a bus: [stat_step st o] updates who is
+    [CNever | COpen | CClosed]; [spec_frames i never ops] = the frames transmitted while i is open by a
+    sender that can write, in history order; [bytes_of f] = the bytes Transmitter.TransmitFrame writes. *)
+
+(** DELIVERY, every history: every endpoint connected during a transmission is handed exactly that frame's
+    16 bytes, once - its own transmissions included -, nothing else, in the order of the history *)
+Theorem C07_emu_delivery : forall i ops,
+  inbox_of i (emu_run [] ops) =
+    map (fun x => (fst x, bytes_of (snd x))) (spec_frames i never ops).
+Proof. exact emu_delivery_from_empty. Qed.
+Print Assumptions C07_emu_delivery.
+
+(** the specification unfolded one step (so that it can be read here) *)
+Theorem C07_emu_spec_step : forall i st o ops,
+  spec_frames i st (o :: ops) =
+    (match o with
+     | ETransmit src f =>
+         if is_open (st i) && match src with None => true | Some j => is_open (st j) end then [(src, f)] else []
+     | _ => []
+     end) ++ spec_frames i (stat_step st o) ops.
+Proof. exact spec_frames_step. Qed.
+Print Assumptions C07_emu_spec_step.
+
+(** PER-SENDER ORDER: what endpoint i holds from sender s is what it would hold if nobody else had
+    transmitted - the frames of s in the order s sent them *)
+Theorem C07_emu_per_sender_order : forall i s ops st,
+  filter (fun x => from_sender s (fst x)) (spec_frames i st ops) = spec_frames i st (only_sender s ops).
+Proof. exact per_sender_order. Qed.
+Print Assumptions C07_emu_per_sender_order.
+
+(** END TO END with C06 and the stream theorems above: a Receiver on an endpoint that was handed the valid
+    frames fs (one datagram each, then the connection is closed) returns exactly fs, in order, once each,
+    the interceptor called with each, none reported as an error frame: transmit through the emulator,
+    then receive, is the identity on valid frames *)
+Theorem C07_emu_end_to_end : forall fs rest n,
+  Forall (fun f => wf_frame f /\ validate f = true) fs ->
+  receive_calls n (map RData (map bytes_of fs) ++ REOF :: rest) =
+    firstn n (map (fun f => frame_event (S_layout f)) fs) ++ repeat (EvStop [] zero_frame None) (n - length fs)
+  /\ Forall (fun f => bytes_of f = S_layout f /\ exists ef, frame_event (S_layout f) = EvFrame [f] f false ef) fs.
+Proof. exact emu_end_to_end. Qed.
+Print Assumptions C07_emu_end_to_end.
+
+(** non-vacuity: endpoint 1 connects, the emulator transmits A, endpoint 2 connects, 1 transmits B (and gets
+    it back), 1 disconnects, 2 transmits C, the closed endpoint 1 tries to transmit D: 1 holds A, B; 2
+    holds B, C; and a Receiver on endpoint 2 returns B, C *)
+Example C07_emu_nonvacuous :
+  let fr := fun id => mkFrame id 8 [1; 2; 3; 4; 5; 6; 7; id] false false in
+  let ops := [EConnect 1; ETransmit None (fr 10); EConnect 2; ETransmit (Some 1) (fr 11); EDisconnect 1;
+              ETransmit (Some 2) (fr 12); ETransmit (Some 1) (fr 13)] in
+  spec_frames 1 never ops = [(None, fr 10); (Some 1, fr 11)] /\
+  spec_frames 2 never ops = [(Some 1, fr 11); (Some 2, fr 12)] /\
+  map snd (inbox_of 2 (emu_run [] ops)) = [S_layout (fr 11); S_layout (fr 12)] /\
+  receive_calls 3 (map RData (map snd (inbox_of 2 (emu_run [] ops))) ++ [REOF]) =
+    [frame_event (S_layout (fr 11)); frame_event (S_layout (fr 12)); EvStop [] zero_frame None] /\
+  (exists ef, frame_event (S_layout (fr 12)) = EvFrame [fr 12] (fr 12) false ef).
+Proof. vm_compute. repeat split. eexists. reflexivity. Qed.
